@@ -468,6 +468,7 @@ qb_ipc_us_recv_at_most(struct qb_ipc_one_way *one_way,
 	struct ipc_us_control *ctl = NULL;
 	int32_t time_waited = 0;
 	int32_t time_to_wait = timeout;
+	int32_t too_big = QB_FALSE;
 
 	if (timeout == -1) {
 		time_to_wait = 1000;
@@ -510,6 +511,15 @@ retry_peek:
 		struct qb_ipc_request_header *hdr = NULL;
 		hdr = (struct qb_ipc_request_header *)msg;
 		to_recv = hdr->size;
+		if (to_recv < 0 || (size_t)to_recv > len) {
+			/*
+			 * The sender's length field does not fit the caller's
+			 * buffer: take the datagram off the queue without
+			 * writing past the buffer, and refuse it.
+			 */
+			too_big = QB_TRUE;
+			to_recv = result;
+		}
 	}
 
 	result = recv(one_way->u.us.sock, data, to_recv,
@@ -524,7 +534,7 @@ retry_peek:
 		goto cleanup_sigpipe;
 	}
 
-	final_rc = result;
+	final_rc = too_big ? -EMSGSIZE : result;
 
 	ctl = (struct ipc_us_control *)one_way->u.us.shared_data;
 	if (ctl) {
